@@ -9,6 +9,7 @@ CONSTANTS
   UseDup = FALSE
   DupElems = FALSE
   BeyondLen = 0
+  ScriptName = "none"
   Reps <- MCReps
   Actors <- MCActors
   ActorOf <- MCActorOf
